@@ -261,7 +261,7 @@ def _inl(rule):
     return run
 
 
-INLINED_VIEW = False
+INLINED_VIEW = True
 def _transparent_decorator(model, m, dec):
     """Is `dec` a decorator of the repository whose wrapper always returns
     the result of calling the wrapped function?  -> (bool, reason)"""
